@@ -337,7 +337,106 @@ def check_shutdown(case):
     return opened > 0, [kind, way, "sockets-open-before=%d" % min(opened, 3)]
 
 
+# ---- a server of a hash client goes away and comes back, then the object is shut down -----------------------------------
+
+# one call to the first server after +1.5 s (> retry_timeout) / the same without waiting / six calls over all servers / first server
+# down / up / clock +70 s (> dead_timeout) / a broadcast
+OUT_SYMS = ("c", "q", "C", "D", "U", "A", "b")
+OUT_KEYS = ["k%d" % i for i in range(6)]
+
+
+def outage_cases(tier, seed):
+    n = 0
+    for length in (3, 4, 5, 6):
+        for seq in itertools.product(OUT_SYMS, repeat=length):
+            if "D" not in seq or not set("cqC") & set(seq[seq.index("D"):]):
+                continue           # without a call during or after an outage nothing differs from the plain shutdown part
+            if any(seq[i] == seq[i + 1] and seq[i] in "DUA" for i in range(length - 1)):
+                continue
+            for kind in ("hash", "hash-pooled"):
+                for ra in (0, 1, 2):
+                    n += 1
+                    if length >= 5 and (tier == "quick" or length == 6) and n % (13 if length == 5 else 61):
+                        continue
+                    yield {"kind": kind, "retry_attempts": ra, "seq": "".join(seq), "way": ("close", "disconnect_all", "quit")[n % 3],
+                           "ignore_exc": bool((n // 3) % 2), "nservers": 1 + (n // 6) % 2}
+
+
+def outage_strategy(tier):
+    return st.fixed_dictionaries({"kind": st.sampled_from(["hash", "hash-pooled"]), "retry_attempts": st.integers(0, 3),
+                                  "seq": st.lists(st.sampled_from("ccqCDUAb"), min_size=3, max_size=16).map("".join).filter(lambda s: "D" in s),
+                                  "way": st.sampled_from(["close", "disconnect_all", "quit"]), "ignore_exc": st.booleans(), "nservers": st.integers(1, 3)})
+
+
+def check_outage(case):
+    """A server of a HashClient fails, is retried, is marked dead, comes back - at any point of that bookkeeping - and then the
+    object is shut down: every socket it opened must be closed. Calls during the outage may fail; after the shutdown none may
+    be left open."""
+    from vlib.harness import Env, virtual_time
+    env = Env(nservers=case["nservers"])
+    net, clock = env.net, env.clock
+    labels = {case["kind"], case["way"], "retry_attempts=%d" % case["retry_attempts"]}
+    desc = "%s over %d server(s), retry_attempts=%d retry_timeout=1 dead_timeout=60 ignore_exc=%r; events %s (c = +1.5 s and a call to the first server, q = such a call at once, C = six calls over all servers, D/U = first server down/up, A = +70 s, b = flush_all broadcast); then %s()" % (
+        case["kind"], case["nservers"], case["retry_attempts"], case["ignore_exc"], case["seq"], case["way"])
+    with virtual_time(clock):
+        c = env.client(case["kind"], servers=list(env.addrs), default_noreply=False, retry_attempts=case["retry_attempts"], retry_timeout=1,
+                       dead_timeout=60, ignore_exc=case["ignore_exc"], timeout=1)
+        most = 0
+        before = len(env.servers[0].log)
+        mine = None
+        for k in OUT_KEYS:             # a key the first server is responsible for
+            c.get(k)
+            if mine is None and len(env.servers[0].log) > before:
+                mine = k
+        for ev in case["seq"] + "U":
+            if ev == "D":
+                env.servers[0].down = "refused"
+            elif ev == "U":
+                env.servers[0].down = None
+            elif ev in "cq":
+                if ev == "c":
+                    clock.advance(1.5)
+                try:
+                    c.get(mine)
+                except Exception:  # noqa: BLE001   (the server may be down)
+                    labels.add("call-failed")
+            elif ev == "A":
+                clock.advance(70)
+            elif ev == "b":
+                try:
+                    c.flush_all()
+                except Exception:  # noqa: BLE001   (the server may be down)
+                    labels.add("broadcast-failed")
+            else:
+                for k in OUT_KEYS:
+                    try:
+                        c.get(k)
+                    except Exception:  # noqa: BLE001   (the server may be down)
+                        labels.add("call-failed")
+            most = max(most, len(net.open_sockets()))
+        if c._dead_clients:
+            labels.add("a-server-is-marked-dead-at-shutdown")
+        try:
+            getattr(c, case["way"])()
+        except Exception as e:  # noqa: BLE001
+            # quit() is a request to every server and goes through the failover bookkeeping, which can refuse it after such a
+            # history (what may escape there is C13's subject, for key-addressed calls); the object is then still in use, and
+            # close() is the way to shut it down
+            labels.add("shutdown-call-raised-" + type(e).__name__)
+            if case["way"] != "quit":
+                raise Violation(["outage-shutdown", "raises", case["kind"], case["way"]], "%s() raised %r: %s" % (case["way"], e, desc))
+            c.close()
+        left = net.open_sockets()
+        if left:
+            raise Violation(["outage-shutdown", "socket-left-open", case["kind"], case["way"]], "after %s() %d socket(s) are still open, to %r: %s"
+                            % (case["way"], len(left), sorted({str(getattr(x, "addr", None)) for x in left}), desc))
+    return most > 0 and ("call-failed" in labels or case["ignore_exc"]), sorted(labels)
+
+
 PARTS = [
+    Part("outage-then-shutdown", "enum", check_outage, cases=outage_cases, exhaustive=True),
+    Part("random-outages-then-shutdown", "hyp", check_outage, strategy=outage_strategy,
+         examples={"quick": 400, "thorough": 20000}, shards={"quick": 4, "thorough": 16}),
     Part("object-shutdown", "enum", check_shutdown, cases=shutdown_cases, exhaustive=True),
     Part("refused-items", "enum", check, cases=refused_item_cases, exhaustive=True),
     Part("connection-ending-calls", "enum", check, cases=ending_cases, exhaustive=True),
